@@ -66,6 +66,9 @@ func c15Subj(c *mon.Ctx, i int) (c15Subject, bool) {
 	if o.Merge {
 		prof = mergeProfiles[i%len(mergeProfiles)]
 	}
+	if i%4 == 3 {
+		prof = prof.With(func(p *gen.Profile) { p.Keys = []string{"id", "ID", "Id", "a", "A", "b"}; p.PArr = 0.3 })
+	}
 	a, b := PairFor(r, o, prof)
 	s := c15Subject{aText: ref.ToJSON(a), bText: ref.ToJSON(b), o: o, src: "diff"}
 	switch i % 7 {
